@@ -468,9 +468,56 @@ def lean_list(defname, typ, items, doc):
     return s
 
 
+def _strip_cv(t):
+    t = re.sub(r"\b(const|volatile|struct|class)\b", "", t)
+    return re.sub(r"\s+", "", t)
+
+def cast_scan(repo):
+    """explicit casts that REMOVE const (C-style, functional, reinterpret_, static_ or const_cast), found in the clang AST of every
+    translation unit (template bodies included): `(T&) x`, `(T*) p` with x / *p const.  file:line of each."""
+    import json
+    out = set()
+    srcs = []
+    for root, dirs, files in sorted(os.walk(os.path.join(repo, "src"))):
+        dirs.sort()
+        if "arch" in root and "x86_64" not in root: continue
+        srcs += [os.path.join(root, f) for f in sorted(files) if f.endswith(".cpp")]
+    kinds = {"CStyleCastExpr", "CXXFunctionalCastExpr", "CXXReinterpretCastExpr", "CXXStaticCastExpr", "CXXConstCastExpr"}
+    for src in srcs:
+        r = subprocess.run(["clang++-14", "-std=gnu++17", "-I", os.path.join(repo, "include"), "-fsyntax-only", "-Xclang", "-ast-dump=json", src],
+                           capture_output=True, text=True)
+        if r.returncode != 0:
+            die("clang AST of %s failed:\n%s" % (src, r.stderr[-800:]))
+        ast = json.loads(r.stdout)
+        state = {"file": None, "line": None}
+        def walk(n):
+            if not isinstance(n, dict): return
+            loc = n.get("loc") or {}
+            rng = n.get("range", {}).get("begin", {})
+            for l in (loc, rng, loc.get("expansionLoc") or {}, rng.get("expansionLoc") or {}):
+                if "file" in l: state["file"] = l["file"]
+                if "line" in l: state["line"] = l["line"]
+            if n.get("kind") in kinds and n.get("inner"):
+                to = n.get("type", {}).get("qualType", "")
+                inner = n["inner"][-1]
+                # look through implicit nodes to the operand as written
+                while inner.get("kind") in ("ImplicitCastExpr", "ParenExpr") and inner.get("inner"): inner = inner["inner"][-1]
+                frm = inner.get("type", {}).get("qualType", "")
+                lval_ref = n.get("valueCategory") == "lvalue"       # (T&) x
+                f = state["file"] or ""
+                if f.startswith(repo) and "const" in frm:
+                    # pointee / referee loses const: same type once cv is stripped, fewer consts in the target spelling
+                    same = _strip_cv(frm).rstrip("*&") == _strip_cv(to).rstrip("*&") or lval_ref
+                    if same and frm.count("const") > to.count("const") and ("*" in to or lval_ref):
+                        out.add("%s:%s" % (os.path.relpath(f, repo), state["line"]))
+            for c in n.get("inner", []) or []:
+                walk(c)
+        walk(ast)
+    return sorted(out)
+
 def source_scan(repo):
-    """const_cast occurrences in the library sources (file:line)."""
-    out = []
+    """const_cast occurrences in the library sources (file:line), plus every other explicit cast that removes const (cast_scan)."""
+    out = cast_scan(repo)
     for top in ("src", "include"):
         for root, dirs, files in sorted(os.walk(os.path.join(repo, top))):
             dirs.sort()
@@ -481,7 +528,7 @@ def source_scan(repo):
                         for i, line in enumerate(fh, 1):
                             if "const_cast" in line:
                                 out.append("%s:%d" % (os.path.relpath(p, repo), i))
-    return out
+    return sorted(set(out))
 
 
 def main():
